@@ -36,9 +36,10 @@ def _fake():
 
 
 def _graph(case):
+    from props.gcommon import relayout
     if "W" in case:
-        return np.array([[float(fr(x)) for x in row] for row in case["W"]], dtype=float)
-    return np.array(case["A"], dtype=float if case.get("dtype") == "float" else int)
+        return relayout(np.array([[float(fr(x)) for x in row] for row in case["W"]], dtype=float))
+    return relayout(np.array(case["A"], dtype=float if case.get("dtype") == "float" else int))
 
 
 def _data(case, p):
